@@ -452,7 +452,9 @@ impl<T: RealNumber, M: SVDDecomposableMatrix<T>> SVD<T, M> {
         let m = U.shape().0;
         let n = V.shape().0;
         let _full = s.len() == m.min(n);
-        let tol = T::half() * (T::from(m + n).unwrap() + T::one()).sqrt() * s[0] * T::epsilon();
+        // the customary rank tolerance max(m, n) * eps * s_max (the former 0.5 * sqrt(m + n + 1) factor
+        // is about 1.3 for a 3 x 3 matrix, below the noise level of an exactly singular f32 input)
+        let tol = T::from(m.max(n)).unwrap() * s[0] * T::epsilon();
         SVD {
             U,
             V,
